@@ -36,21 +36,21 @@ func timerTerm(c *vclock.Clock) string {
 }
 
 type cronGen struct {
-	r      *rand.Rand
-	clock  *vclock.Clock
-	now    time.Time
-	pool   []*cron.Entry        // entry objects by eid
-	rows   []string             // coq term of (crow, start)
-	tbl    []string             // nxt table rows
-	eidOf  map[*cron.Entry]int
-	out    []string
-	store  *cron.CronStore
-	mode   string
-	stats  map[string]int
-	scrib  bool
+	r       *rand.Rand
+	clock   *vclock.Clock
+	now     time.Time
+	pool    []*cron.Entry // entry objects by eid
+	rows    []string      // coq term of (crow, start)
+	tbl     []string      // nxt table rows
+	eidOf   map[*cron.Entry]int
+	out     []string
+	store   *cron.CronStore
+	mode    string
+	stats   map[string]int
+	scrib   bool
 	workIds []string // work ids to draw from (pipeline harness); default: w / w2 / work
-	params []def.TaskUpdateParam
-	exprs  []any
+	params  []def.TaskUpdateParam
+	exprs   []any
 }
 
 func (g *cronGen) metaFor() (map[string]string, bool) {
@@ -184,7 +184,13 @@ func (g *cronGen) step() {
 		"c16": {25, 5, 12, 3, 40, 3, 1, 6, 3},
 		"c17": {22, 3, 3, 10, 18, 12, 10, 16, 8},
 	}[g.mode]
-	x := g.r.Intn(func() int { s := 0; for _, v := range w { s += v }; return s }())
+	x := g.r.Intn(func() int {
+		s := 0
+		for _, v := range w {
+			s += v
+		}
+		return s
+	}())
 	k := 0
 	for ; k < len(w); k++ {
 		if x < w[k] {
